@@ -28,6 +28,28 @@ Definition py_nth {A : Type} (l : list A) (i : Z) : option A :=
   else if (- n <=? i) && (i <? 0) then nth_error l (Z.to_nat (n + i))
   else None.
 
+(* l[i].attr = v, as a functional update of element i : IndexError outside -len .. len-1 *)
+Fixpoint update_nth {A : Type} (l : list A) (i : nat) (f : A -> A) : list A :=
+  match l, i with
+  | [], _ => []
+  | x :: r, O => f x :: r
+  | x :: r, S i' => x :: update_nth r i' f
+  end.
+Definition py_update_nth {A : Type} (l : list A) (i : Z) (f : A -> A) : option (list A) :=
+  let n := Z.of_nat (length l) in
+  if (0 <=? i) && (i <? n) then Some (update_nth l (Z.to_nat i) f)
+  else if (- n <=? i) && (i <? 0) then Some (update_nth l (Z.to_nat (n + i)) f)
+  else None.
+
+(* for i in range(len(l)): if i != k: l[i].attr = v *)
+Fixpoint mapi_from {A B : Type} (k : nat) (f : nat -> A -> B) (l : list A) : list B :=
+  match l with
+  | [] => []
+  | x :: r => f k x :: mapi_from (S k) f r
+  end.
+Definition py_update_others {A : Type} (l : list A) (k : Z) (f : A -> A) : list A :=
+  mapi_from 0 (fun j x => if Z.of_nat j =? k then x else f x) l.
+
 (* bytes([x]) : ValueError outside range(256) *)
 Definition py_bytes1 (x : Z) : option bytes := if (0 <=? x) && (x <? 256) then Some [x] else None.
 
